@@ -152,4 +152,304 @@ theorem pdfR_unfold (maxDens top bound : ℝ) (k : ℕ) (exps : List (List ℝ))
     rw [ho]
     exact ⟨rfl, rfl, rfl, rfl, Or.inr ⟨h, rfl, rfl⟩⟩
 
+/-- `pdfR_unfold` without `let`s. -/
+theorem pdfR_unfold' (maxDens top bound : ℝ) (k : ℕ) (exps : List (List ℝ)) :
+    (pdfR maxDens top bound k exps).constant = 2 * bound / 9 ∧
+    (pdfR maxDens top bound k exps).pdf = exps.map (pdfOf k) ∧
+    (pdfR maxDens top bound k exps).minD = (mmFold (exps.map (pdfOf k)) (top, 0 - top)).1 ∧
+    (pdfR maxDens top bound k exps).maxD = (mmFold (exps.map (pdfOf k)) (top, 0 - top)).2 ∧
+    (((mmFold (exps.map (pdfOf k)) (top, 0 - top)).1 = (mmFold (exps.map (pdfOf k)) (top, 0 - top)).2 ∧
+        (pdfR maxDens top bound k exps).density = (exps.map (pdfOf k)).map (fun _ => maxDens) ∧
+        (pdfR maxDens top bound k exps).cost = (exps.map (pdfOf k)).map (fun _ => maxDens - 1)) ∨
+     ((mmFold (exps.map (pdfOf k)) (top, 0 - top)).1 ≠ (mmFold (exps.map (pdfOf k)) (top, 0 - top)).2 ∧
+        (pdfR maxDens top bound k exps).density =
+          (exps.map (pdfOf k)).map (rescale maxDens (mmFold (exps.map (pdfOf k)) (top, 0 - top)).1
+            (mmFold (exps.map (pdfOf k)) (top, 0 - top)).2) ∧
+        (pdfR maxDens top bound k exps).cost =
+          ((exps.map (pdfOf k)).map (rescale maxDens (mmFold (exps.map (pdfOf k)) (top, 0 - top)).1
+            (mmFold (exps.map (pdfOf k)) (top, 0 - top)).2)).map (fun d => d - 1))) :=
+  pdfR_unfold maxDens top bound k exps
+
+theorem rescale_strictMono {maxDens mn mx : ℝ} (hM : 1 < maxDens) (h : mn < mx) :
+    StrictMono (rescale maxDens mn mx) := by
+  intro p q hpq
+  have h1 : 0 < maxDens - 1 := by linarith
+  have h2 : 0 < mx - mn := by linarith
+  have h3 : (maxDens - 1) * (p - mn) < (maxDens - 1) * (q - mn) :=
+    mul_lt_mul_of_pos_left (by linarith) h1
+  have h4 := div_lt_div_of_pos_right h3 h2
+  unfold rescale
+  linarith
+
+theorem rescale_range {maxDens mn mx p : ℝ} (hM : 1 ≤ maxDens) (h : mn < mx) (h1 : mn ≤ p)
+    (h2 : p ≤ mx) : 1 ≤ rescale maxDens mn mx p ∧ rescale maxDens mn mx p ≤ maxDens := by
+  have hM' : 0 ≤ maxDens - 1 := by linarith
+  have hd : 0 < mx - mn := by linarith
+  unfold rescale
+  constructor
+  · have : 0 ≤ (maxDens - 1) * (p - mn) / (mx - mn) :=
+      div_nonneg (mul_nonneg hM' (by linarith)) hd.le
+    linarith
+  · have : (maxDens - 1) * (p - mn) / (mx - mn) ≤ maxDens - 1 := by
+      rw [div_le_iff₀ hd]
+      exact mul_le_mul_of_nonneg_left (by linarith) hM'
+    linarith
+
+theorem rescale_min {maxDens mn mx : ℝ} : rescale maxDens mn mx mn = 1 := by
+  simp [rescale]
+
+theorem rescale_max {maxDens mn mx : ℝ} (h : mn ≠ mx) : rescale maxDens mn mx mx = maxDens := by
+  have hd : mx - mn ≠ 0 := sub_ne_zero.2 (Ne.symm h)
+  unfold rescale
+  field_simp
+  ring
+
+/-! ### C12: `calculate_pdf` -/
+
+section Props
+variable (maxDens top bound : ℝ) (k : ℕ) (exps : List (List ℝ))
+
+local notation "𝐨" => pdfR maxDens top bound k exps
+
+/-- 1. `constant = 2 * density_bound / 9`. -/
+theorem c12_pdf_constant : 𝐨.constant = 2 * bound / 9 :=
+  (pdfR_unfold' maxDens top bound k exps).1
+
+/-- 2. `pdf[i]` = (sum of the `k` exp values of sample `i`) / (k + 1). -/
+theorem c12_pdf_values : 𝐨.pdf = exps.map (fun es => (es.take k).sum / ((k : ℝ) + 1)) :=
+  (pdfR_unfold' maxDens top bound k exps).2.1
+
+theorem c12_pdf_lengths :
+    𝐨.pdf.length = exps.length ∧ 𝐨.density.length = exps.length ∧ 𝐨.cost.length = exps.length := by
+  obtain ⟨_, hp, _, _, h | h⟩ := pdfR_unfold' maxDens top bound k exps
+  · rw [hp, h.2.1, h.2.2]; simp
+  · rw [hp, h.2.1, h.2.2]; simp
+
+/-- 3. `min_density` / `max_density` are the minimum / maximum of the pdf values, provided there is
+at least one sample and every pdf value lies strictly between `-top` and `top`
+(`top` = `FLOAT_MAX`). -/
+theorem c12_pdf_minmax (hne : exps ≠ [])
+    (hb : ∀ es ∈ exps, -top < pdfOf k es ∧ pdfOf k es < top) :
+    (∀ p ∈ 𝐨.pdf, 𝐨.minD ≤ p) ∧ 𝐨.minD ∈ 𝐨.pdf ∧ (∀ p ∈ 𝐨.pdf, p ≤ 𝐨.maxD) ∧ 𝐨.maxD ∈ 𝐨.pdf := by
+  obtain ⟨_, hp, hmn, hmx, _⟩ := pdfR_unfold' maxDens top bound k exps
+  rw [hp, hmn, hmx]
+  obtain ⟨⟨_, h2, h3⟩, ⟨_, g2, g3⟩⟩ := mmFold_spec (exps.map (pdfOf k)) top (0 - top)
+  obtain ⟨e, he⟩ := List.exists_mem_of_ne_nil exps hne
+  have hmem : pdfOf k e ∈ exps.map (pdfOf k) := List.mem_map_of_mem he
+  obtain ⟨hb1, hb2⟩ := hb e he
+  refine ⟨h2, ?_, g2, ?_⟩
+  · rcases h3 with h3 | h3
+    · have := h2 _ hmem; rw [h3] at this; linarith
+    · exact h3
+  · rcases g3 with g3 | g3
+    · have := g2 _ hmem; rw [g3] at this; linarith
+    · exact g3
+
+/-- 4. all pdf values equal: every density is `MAX_DENSITY`, every cost `MAX_DENSITY - 1`. -/
+theorem c12_pdf_allequal (h : 𝐨.minD = 𝐨.maxD) :
+    (∀ d ∈ 𝐨.density, d = maxDens) ∧ (∀ c ∈ 𝐨.cost, c = maxDens - 1) ∧
+    𝐨.density.length = exps.length ∧ 𝐨.cost.length = exps.length := by
+  obtain ⟨_, _, hmn, hmx, hc | hc⟩ := pdfR_unfold' maxDens top bound k exps
+  · refine ⟨?_, ?_, (c12_pdf_lengths maxDens top bound k exps).2.1,
+      (c12_pdf_lengths maxDens top bound k exps).2.2⟩
+    · rw [hc.2.1]; intro d hd
+      obtain ⟨_, _, rfl⟩ := List.mem_map.1 hd; rfl
+    · rw [hc.2.2]; intro d hd
+      obtain ⟨_, _, rfl⟩ := List.mem_map.1 hd; rfl
+  · rw [hmn, hmx] at h; exact absurd h hc.1
+
+/-- 5. otherwise: the affine min–max map onto `[1, MAX_DENSITY]`. -/
+theorem c12_pdf_affine (h : 𝐨.minD ≠ 𝐨.maxD) :
+    𝐨.density = 𝐨.pdf.map (fun p => (maxDens - 1) * (p - 𝐨.minD) / (𝐨.maxD - 𝐨.minD) + 1) := by
+  obtain ⟨_, hp, hmn, hmx, hc | hc⟩ := pdfR_unfold' maxDens top bound k exps
+  · rw [hmn, hmx] at h; exact absurd hc.1 h
+  · rw [hp, hmn, hmx, hc.2.1]; rfl
+
+theorem c12_pdf_affine' (h : 𝐨.minD ≠ 𝐨.maxD) :
+    𝐨.density = 𝐨.pdf.map (rescale maxDens 𝐨.minD 𝐨.maxD) :=
+  c12_pdf_affine maxDens top bound k exps h
+
+theorem c12_pdf_const' (h : 𝐨.minD = 𝐨.maxD) : 𝐨.density = 𝐨.pdf.map (fun _ => maxDens) := by
+  obtain ⟨_, hp, hmn, hmx, hc | hc⟩ := pdfR_unfold' maxDens top bound k exps
+  · rw [hp, hc.2.1]
+  · rw [hmn, hmx] at h; exact absurd h hc.1
+
+/-- 6. initial cost = density − 1, in both branches. -/
+theorem c12_pdf_cost : 𝐨.cost = 𝐨.density.map (· - 1) := by
+  obtain ⟨_, _, _, _, hc | hc⟩ := pdfR_unfold' maxDens top bound k exps
+  · rw [hc.2.1, hc.2.2]; simp [List.map_map]
+  · rw [hc.2.1, hc.2.2]
+
+/-- with at least one sample and the `top` bounds, `min_density ≤ max_density`. -/
+theorem c12_pdf_min_le_max (hne : exps ≠ [])
+    (hb : ∀ es ∈ exps, -top < pdfOf k es ∧ pdfOf k es < top) : 𝐨.minD ≤ 𝐨.maxD := by
+  obtain ⟨h1, h2, h3, _⟩ := c12_pdf_minmax maxDens top bound k exps hne hb
+  exact h3 _ h2
+
+/-- every density lies in `[1, MAX_DENSITY]` (both branches). -/
+theorem c12_pdf_range (hM : 1 ≤ maxDens) (hne : exps ≠ [])
+    (hb : ∀ es ∈ exps, -top < pdfOf k es ∧ pdfOf k es < top) :
+    ∀ d ∈ 𝐨.density, 1 ≤ d ∧ d ≤ maxDens := by
+  intro d hd
+  by_cases h : 𝐨.minD = 𝐨.maxD
+  · rw [(c12_pdf_allequal maxDens top bound k exps h).1 d hd]
+    exact ⟨hM, le_refl _⟩
+  · obtain ⟨h1, _, h3, _⟩ := c12_pdf_minmax maxDens top bound k exps hne hb
+    have hlt : 𝐨.minD < 𝐨.maxD :=
+      lt_of_le_of_ne (c12_pdf_min_le_max maxDens top bound k exps hne hb) h
+    rw [c12_pdf_affine' maxDens top bound k exps h] at hd
+    obtain ⟨p, hp, rfl⟩ := List.mem_map.1 hd
+    exact rescale_range hM hlt (h1 p hp) (h3 p hp)
+
+/-- in the affine branch the sample(s) attaining the minimum get density exactly `1`. -/
+theorem c12_pdf_min_to_one (h : 𝐨.minD ≠ 𝐨.maxD) (i : ℕ) (hi : i < 𝐨.pdf.length)
+    (hi' : i < 𝐨.density.length) (hmin : 𝐨.pdf[i] = 𝐨.minD) : 𝐨.density[i] = 1 := by
+  have e : 𝐨.density[i] = rescale maxDens 𝐨.minD 𝐨.maxD 𝐨.pdf[i] := by
+    simp [c12_pdf_affine' maxDens top bound k exps h]
+  rw [e, hmin, rescale_min]
+
+/-- the sample(s) attaining the maximum get density exactly `MAX_DENSITY` (both branches). -/
+theorem c12_pdf_max_to_maxdens (i : ℕ) (hi : i < 𝐨.pdf.length)
+    (hi' : i < 𝐨.density.length) (hmax : 𝐨.pdf[i] = 𝐨.maxD) : 𝐨.density[i] = maxDens := by
+  by_cases h : 𝐨.minD = 𝐨.maxD
+  · exact (c12_pdf_allequal maxDens top bound k exps h).1 _ (List.getElem_mem hi')
+  · have e : 𝐨.density[i] = rescale maxDens 𝐨.minD 𝐨.maxD 𝐨.pdf[i] := by
+      simp [c12_pdf_affine' maxDens top bound k exps h]
+    rw [e, hmax, rescale_max h]
+
+/-- the density map preserves the order of the pdf values, index by index (both branches). -/
+theorem c12_pdf_monotone (hM : 1 < maxDens) (hne : exps ≠ [])
+    (hb : ∀ es ∈ exps, -top < pdfOf k es ∧ pdfOf k es < top)
+    (i j : ℕ) (hi : i < 𝐨.pdf.length) (hi' : i < 𝐨.density.length)
+    (hj : j < 𝐨.pdf.length) (hj' : j < 𝐨.density.length) :
+    (𝐨.pdf[i] < 𝐨.pdf[j] → 𝐨.density[i] < 𝐨.density[j]) ∧
+    (𝐨.pdf[i] = 𝐨.pdf[j] → 𝐨.density[i] = 𝐨.density[j]) := by
+  by_cases h : 𝐨.minD = 𝐨.maxD
+  · obtain ⟨h1, _, h3, _⟩ := c12_pdf_minmax maxDens top bound k exps hne hb
+    have hall := (c12_pdf_allequal maxDens top bound k exps h).1
+    constructor
+    · intro hlt
+      have := h1 _ (List.getElem_mem hi)
+      have := h3 _ (List.getElem_mem hj)
+      linarith
+    · intro _
+      rw [hall _ (List.getElem_mem hi'), hall _ (List.getElem_mem hj')]
+  · have hlt : 𝐨.minD < 𝐨.maxD :=
+      lt_of_le_of_ne (c12_pdf_min_le_max maxDens top bound k exps hne hb) h
+    have ei : 𝐨.density[i] = rescale maxDens 𝐨.minD 𝐨.maxD 𝐨.pdf[i] := by
+      simp [c12_pdf_affine' maxDens top bound k exps h]
+    have ej : 𝐨.density[j] = rescale maxDens 𝐨.minD 𝐨.maxD 𝐨.pdf[j] := by
+      simp [c12_pdf_affine' maxDens top bound k exps h]
+    rw [ei, ej]
+    exact ⟨fun hpq => rescale_strictMono hM hlt hpq, fun hpq => by rw [hpq]⟩
+
+/-- in the affine branch the order is also reflected: densities compare exactly as pdf values. -/
+theorem c12_pdf_monotone_iff (hM : 1 < maxDens) (hne : exps ≠ [])
+    (hb : ∀ es ∈ exps, -top < pdfOf k es ∧ pdfOf k es < top) (h : 𝐨.minD ≠ 𝐨.maxD)
+    (i j : ℕ) (hi : i < 𝐨.pdf.length) (hi' : i < 𝐨.density.length)
+    (hj : j < 𝐨.pdf.length) (hj' : j < 𝐨.density.length) :
+    𝐨.density[i] < 𝐨.density[j] ↔ 𝐨.pdf[i] < 𝐨.pdf[j] := by
+  have hlt : 𝐨.minD < 𝐨.maxD :=
+    lt_of_le_of_ne (c12_pdf_min_le_max maxDens top bound k exps hne hb) h
+  have ei : 𝐨.density[i] = rescale maxDens 𝐨.minD 𝐨.maxD 𝐨.pdf[i] := by
+    simp [c12_pdf_affine' maxDens top bound k exps h]
+  have ej : 𝐨.density[j] = rescale maxDens 𝐨.minD 𝐨.maxD 𝐨.pdf[j] := by
+    simp [c12_pdf_affine' maxDens top bound k exps h]
+  rw [ei, ej]
+  exact (rescale_strictMono hM hlt).lt_iff_lt
+
+end Props
+
+/-! ### C12: `eliminate_maxima_height` -/
+
+/-- 7a. `height > 0`: new cost = `max(density - height, 0)`. -/
+theorem c12_elim_pos {h : ℝ} (d c : ℝ) (hh : 0 < h) : elimR h d c = max (d - h) 0 := by
+  show elimG _ _ _ _ = _
+  unfold elimG
+  rw [if_pos hh]
+  by_cases hv : 0 < d - h
+  · simp only [if_pos hv]; exact (max_eq_left hv.le).symm
+  · simp only [if_neg hv]; exact (max_eq_right (not_lt.1 hv)).symm
+
+/-- 7b. `height ≤ 0`: the cost is left as it is. -/
+theorem c12_elim_nonpos {h : ℝ} (d c : ℝ) (hh : h ≤ 0) : elimR h d c = c := by
+  show elimG _ _ _ _ = _
+  unfold elimG
+  rw [if_neg (not_lt.2 hh)]
+
+/-! ### C14: density of a query in `predict` -/
+
+/-- 8. mean of the `k` exp values (divided by `k`, not `k + 1`), min–max scaled with `+ EPSILON`
+in the denominator. -/
+theorem c14_query_density (maxDens eps minD maxD : ℝ) (k : ℕ) (exps : List ℝ) :
+    queryDensityR maxDens eps minD maxD k exps =
+      (maxDens - 1) * ((exps.sum / (k : ℝ)) - minD) / (maxD - minD + eps) + 1 := by
+  show queryDensityG _ _ _ _ _ _ _ _ = _
+  unfold queryDensityG
+  rw [foldl_add_eq_sum]
+
+/-! ### non-vacuity: a concrete 3-sample input -/
+
+/-- 9. `k = 2`, `MAX_DENSITY = 1000`, `top = 10^6`, density bound `1`: the hypotheses of the
+theorems above hold and the outputs are computed exactly (pdf `1/4, 1/6, 1/2`; the minimum goes to
+`1`, the maximum to `1000`, the middle one to `999 * (1/4 - 1/6) / (1/2 - 1/6) + 1 = 1003/4`). -/
+example :
+    let exps : List (List ℝ) := [[1/2, 1/4], [1/4, 1/4], [1, 1/2]]
+    let o := pdfR 1000 (10^6) 1 2 exps
+    (1 : ℝ) < 1000 ∧ (0 : ℝ) < 10^6 ∧ exps ≠ [] ∧ (∀ es ∈ exps, 2 ≤ es.length) ∧
+    (∀ es ∈ exps, -(10:ℝ)^6 < pdfOf 2 es ∧ pdfOf 2 es < (10:ℝ)^6) ∧
+    o.constant = 2 / 9 ∧ o.pdf = [1/4, 1/6, 1/2] ∧ o.minD = 1/6 ∧ o.maxD = 1/2 ∧
+    o.density = [1003/4, 1, 1000] ∧ o.cost = [999/4, 0, 999] ∧
+    (∀ d ∈ o.density, 1 ≤ d ∧ d ≤ 1000) := by
+  intro exps o
+  have hne0 : exps ≠ [] := by simp [exps]
+  have hb : ∀ es ∈ exps, -(10:ℝ)^6 < pdfOf 2 es ∧ pdfOf 2 es < (10:ℝ)^6 := by
+    norm_num [exps, pdfOf]
+  have hmm : mmFold (exps.map (pdfOf 2)) ((10:ℝ)^6, 0 - (10:ℝ)^6) = (1/6, 1/2) := by
+    norm_num [exps, mmFold, pdfOf]
+  obtain ⟨hc, hp, hmn, hmx, -⟩ := pdfR_unfold' 1000 (10^6) 1 2 exps
+  rw [hmm] at hmn hmx
+  have hmn' : o.minD = 1/6 := hmn
+  have hmx' : o.maxD = 1/2 := hmx
+  have hne : o.minD ≠ o.maxD := by rw [hmn', hmx']; norm_num
+  have hp' : o.pdf = [1/4, 1/6, 1/2] := by
+    show (pdfR 1000 (10^6) 1 2 exps).pdf = _
+    rw [hp]; norm_num [exps, pdfOf]
+  have hd : o.density = [1003/4, 1, 1000] := by
+    rw [c12_pdf_affine _ _ _ _ _ hne, hmn', hmx', hp']
+    norm_num
+  refine ⟨by norm_num, by norm_num, hne0, by simp [exps], hb, ?_, hp', hmn', hmx', hd, ?_,
+    c12_pdf_range 1000 (10^6) 1 2 exps (by norm_num) hne0 hb⟩
+  · rw [hc]; norm_num
+  · rw [c12_pdf_cost, hd]; norm_num
+
+/-- the all-equal branch is reachable as well: two samples with the same pdf value. -/
+example :
+    let o := pdfR 1000 (10^6) 1 2 [[1/2, 1/4], [1/4, 1/2]]
+    o.minD = o.maxD ∧ o.density = [1000, 1000] ∧ o.cost = [999, 999] := by
+  intro o
+  have hmm : mmFold (([[1/2, 1/4], [1/4, 1/2]] : List (List ℝ)).map (pdfOf 2))
+      ((10:ℝ)^6, 0 - (10:ℝ)^6) = (1/4, 1/4) := by
+    norm_num [mmFold, pdfOf]
+  obtain ⟨-, hp, hmn, hmx, -⟩ := pdfR_unfold' 1000 (10^6) 1 2 [[1/2, 1/4], [1/4, 1/2]]
+  rw [hmm] at hmn hmx
+  have h : o.minD = o.maxD := hmn.trans hmx.symm
+  have hd : o.density = [1000, 1000] := by
+    rw [c12_pdf_const' _ _ _ _ _ h]
+    show List.map _ (pdfR 1000 (10^6) 1 2 [[1/2, 1/4], [1/4, 1/2]]).pdf = _
+    rw [hp]; simp
+  refine ⟨h, hd, ?_⟩
+  rw [c12_pdf_cost, hd]; norm_num
+
+/-- `eliminate_maxima_height` and the query density on concrete numbers. -/
+example : elimR 2 5 7 = 3 ∧ elimR 9 5 7 = 0 ∧ elimR 0 5 7 = 7 ∧ elimR (-1) 5 7 = 7 ∧
+    queryDensityR 1000 (1/10) (1/6) (1/2) 2 [1/2, 1/4] =
+      999 * (3/8 - 1/6) / (1/2 - 1/6 + 1/10) + 1 := by
+  refine ⟨?_, ?_, ?_, ?_, ?_⟩
+  · rw [c12_elim_pos _ _ (by norm_num)]; norm_num
+  · rw [c12_elim_pos _ _ (by norm_num)]; norm_num
+  · exact c12_elim_nonpos _ _ (le_refl _)
+  · exact c12_elim_nonpos _ _ (by norm_num)
+  · rw [c14_query_density]; norm_num
+
 end Opf
